@@ -1,5 +1,6 @@
 import ComposeVerif.Props.C12
 import ComposeVerif.Props.C12Origin
+import ComposeVerif.Model.Pipeline
 import ComposeVerif.Lemmas.AuditCmd
 /-!
 # C12 — the whole pipeline against the specification (round 5)
@@ -59,3 +60,126 @@ example :
         ['C', ':', '\\', 'd'] = some ['C', ':', '\\', 'd'] := by decide
 
 end CV.Paths
+
+/-! # Round 6 — the clause of C12 about the composed pipeline (`Model/Pipeline.lean`: `Pipeline.load`, `Pipeline.loadY`)
+
+The composed model runs the stage models in the loader's order; C12 owns `pathsStage`
+(`if opts.ResolvePaths { paths.ResolveRelativePaths(dict, config.WorkingDir, remotes) }`), which sits between
+`validateStage` and `ResolveEnvironment`.  The theorems below are about the whole function: whenever `Pipeline.load`
+(documents) or `Pipeline.loadY` (YAML files) succeeds, the model that leaves the path stage — the one handed to
+`ResolveEnvironment` and `Normalize` — (a) is the resolution of the validated model, (b) differs from it only below nodes
+of the resolver table (every non-path attribute is as the earlier stages left it), (c) is a fixpoint of the resolution
+(resolving the already resolved model changes nothing), and with resolution off (d) is the validated model itself. -/
+namespace CV.Pipeline
+open CV CV.Paths
+
+theorem Out.bind_ok {α β : Type} (x : Out α) (f : α → Out β) (r : β) (h : x.bind f = .ok r) :
+    ∃ a, x = .ok a ∧ f a = .ok r := by
+  cases x with
+  | ok a => exact ⟨a, rfl, h⟩
+  | err e => simp [Out.bind] at h
+  | panic s => simp [Out.bind] at h
+
+/-- the path stage of the composed pipeline is `Paths.resolve` with the project's configuration, or nothing -/
+theorem pathsStage_is_resolve (c : Cfg) (d r : Val) (h : pathsStage c d = .ok r) :
+    (c.opts.resolvePaths = true ∧ Paths.resolve c.paths d = .ok r) ∨ (c.opts.resolvePaths = false ∧ r = d) := by
+  unfold pathsStage at h
+  cases hp : c.opts.resolvePaths with
+  | true =>
+    simp only [hp, if_true] at h
+    cases hr : Paths.resolve c.paths d with
+    | ok a => simp only [hr, ofPaths, Out.ok.injEq] at h; exact .inl ⟨rfl, by rw [h]⟩
+    | err e => simp [hr, ofPaths] at h
+    | panic s => simp [hr, ofPaths] at h
+  | false =>
+    simp only [hp, Bool.false_eq_true, if_false, Out.ok.injEq] at h
+    exact .inr ⟨rfl, h.symm⟩
+
+/-- the path stage never panics, whatever the earlier stages produced (composition of `resolve_never_panics`) -/
+theorem pathsStage_never_panics (c : Cfg) (d : Val) (s : String) : pathsStage c d ≠ .panic s := by
+  unfold pathsStage
+  split
+  · cases hr : Paths.resolve c.paths d with
+    | ok a => simp [ofPaths]
+    | err e => simp [ofPaths]
+    | panic x => exact absurd hr (Paths.resolve_never_panics c.paths d x)
+  · simp
+
+/-- what `finishModel` (defaults → validation → paths → environment) returns, in terms of the path stage -/
+theorem finishModel_through_paths (c : Cfg) (dict : Val) (r : Val.KVs) (h : finishModel c dict = .ok r) :
+    ∃ d0 d m, defaultsStage c dict = .ok d0 ∧ validateStage c d0 = .ok d ∧ pathsStage c d = .ok (.map m) ∧
+      r = resolveEnvironment c.env m := by
+  unfold finishModel at h
+  obtain ⟨d0, h0, h⟩ := Out.bind_ok _ _ _ h
+  obtain ⟨d, h1, h⟩ := Out.bind_ok _ _ _ h
+  obtain ⟨p, h2, h⟩ := Out.bind_ok _ _ _ h
+  unfold envStage at h
+  cases p with
+  | map m => simp only [Out.ok.injEq] at h; exact ⟨d0, d, m, h0, h1, h2, h.symm⟩
+  | null => simp at h
+  | bool b => simp at h
+  | int n => simp at h
+  | float f => simp at h
+  | str s => simp at h
+  | seq xs => simp at h
+
+/-- the conclusion of the C12 clause about a successful load that produced `r` -/
+def PathsClause (c : Cfg) (r : Val.KVs) : Prop :=
+  ∃ (d : Val) (m : Val.KVs),
+    -- `d` is the model after merge, defaults and validation; `m` leaves the path stage and `r` is the rest of the pipeline on it
+    finishLoad c (resolveEnvironment c.env m) = .ok r ∧
+    (c.opts.resolvePaths = true →
+      Paths.resolve c.paths d = .ok (.map m) ∧
+      Frame CV.Gen.resolvers TPath.root d (.map m) ∧
+      (IdemOK c.paths → Paths.resolve c.paths (.map m) = .ok (.map m))) ∧
+    (c.opts.resolvePaths = false → d = .map m)
+
+theorem clause_of_finishModel (c : Cfg) (dict : Val) (k r : Val.KVs) (h : finishModel c dict = .ok k)
+    (hf : finishLoad c k = .ok r) : PathsClause c r := by
+  obtain ⟨d0, d, m, _, _, hp, rfl⟩ := finishModel_through_paths c dict k h
+  refine ⟨d, m, hf, ?_, ?_⟩
+  · intro hon
+    rcases pathsStage_is_resolve c d _ hp with ⟨_, hr⟩ | ⟨hoff, _⟩
+    · exact ⟨hr, Paths.frame c.paths d _ hr, fun hok => Paths.resolve_idem c.paths hok d _ hr⟩
+    · rw [hon] at hoff; cases hoff
+  · intro hoff
+    rcases pathsStage_is_resolve c d _ hp with ⟨hon, _⟩ | ⟨_, he⟩
+    · rw [hoff] at hon; cases hon
+    · exact he.symm
+
+/-- **C12 about `Pipeline.load`**: every successful load of documents went through the path stage as the property says -/
+theorem load_paths_clause (c : Cfg) (docs : List Val.KVs) (r : Val.KVs) (h : load c docs = .ok r) : PathsClause c r := by
+  unfold load at h
+  split at h
+  · cases h
+  · obtain ⟨k, hk, hf⟩ := Out.bind_ok _ _ _ h
+    unfold loadYamlModel at hk
+    obtain ⟨dict, _, hm⟩ := Out.bind_ok _ _ _ hk
+    exact clause_of_finishModel c dict k r hm hf
+
+/-- **C12 about `Pipeline.loadY`** (files given as YAML text, `!reset` / `!override` included) -/
+theorem loadY_paths_clause (c : Cfg) (files : List (List Reset.YNode)) (r : Val.KVs) (h : loadY c files = .ok r) :
+    PathsClause c r := by
+  unfold loadY at h
+  split at h
+  · cases h
+  · obtain ⟨k, hk, hf⟩ := Out.bind_ok _ _ _ h
+    unfold loadYamlModelY at hk
+    obtain ⟨dict, _, hm⟩ := Out.bind_ok _ _ _ hk
+    exact clause_of_finishModel c dict k r hm hf
+
+/-- with `SkipNormalization` the loaded model itself is (environment resolution of) the fixpoint: read off `PathsClause` -/
+theorem load_result_is_resolved (c : Cfg) (docs : List Val.KVs) (r : Val.KVs) (h : load c docs = .ok r)
+    (hn : c.opts.skipNormalization = true) (hon : c.opts.resolvePaths = true) (hok : IdemOK c.paths) :
+    ∃ m, r = resolveEnvironment c.env m ∧ Paths.resolve c.paths (.map m) = .ok (.map m) := by
+  obtain ⟨d, m, hf, hon', _⟩ := load_paths_clause c docs r h
+  refine ⟨m, ?_, (hon' hon).2.2 hok⟩
+  unfold finishLoad at hf
+  split at hf
+  · cases hf
+  · split at hf
+    · cases hf
+    · simp only [hn, if_true, Out.ok.injEq] at hf
+      exact hf.symm
+
+end CV.Pipeline
